@@ -650,6 +650,19 @@ def check_pe_macho(ck, drv, r, quick, corr):
 
 # ---------------------------------------------------------------------------------------
 
+def audit_extra(ck, mod):
+    """#print axioms audit of an additional property module (its build is an obligation of the caller)"""
+    try:
+        thms, bad = audit(mod)
+    except Exception as e:
+        thms, bad = [], ["audit of %s could not run: %r" % (mod, e)]
+    for t in thms:
+        ck.oblige("theorem " + t, not any(t in b for b in bad))
+    for b in bad:
+        ck.oblige("audit " + mod, False, b)
+        ck.report("%s:proof-obligation:%s" % (ck.id, mod), "audit of %s: %s" % (mod, b[:300]), "proof-obligation", b[:2000], failing_input_found=False)
+
+
 def main(tier):
     ck = Check("C14", tier)
     quick = tier == "quick"
@@ -675,6 +688,15 @@ def main(tier):
         if not quick:
             check_readobj(ck, corpus, r, 1500)
         drv.close()
+    # PE and Mach-O readers: Lean models (Model/Pe.lean, Model/Macho.lean), theorems of Props/C14Pe.lean / C14Macho.lean,
+    # each tied by its own three-way correspondence (real reader / compiled model / independent struct reader)
+    import pe_check, macho_check
+    corr_pe, corr_macho = [], []
+    pe_check.run_c14(ck, tier, corr_pe)
+    macho_check.run_c14(ck, tier, corr_macho)
+    audit_extra(ck, "C14Macho")
+    for name, cl in (("pe", corr_pe), ("macho", corr_macho)):
+        ck.oblige("correspondence %s reader ~ Lean model" % name, not cl, "%d disagreements" % len(cl))
     for b in broken:
         ck.report("C14:proof-obligation", "proof obligation broken: %s" % b[:300], "proof-obligation", b[:2000], failing_input_found=False)
     if corr:
